@@ -276,6 +276,29 @@ as "applied, no error" (seeded C11-F released the writers when a replica is unlo
 theorem waiter_channel_closed_only_by_the_waiter :
     Generated.notificationChannelClosedOnlyByItsWaiter = true := by decide
 
+/-- the system with one more step: somebody other than the waiter closes its channel while it waits; the
+receive then yields the channel's zero value — outcome 0, "no error" -/
+inductive StepForeign : Cfg → Cfg → Prop where
+  | base {c c' : Cfg} : Step c c' → StepForeign c c'
+  | foreignClose (c : Cfg) : c.pc = .waiting → c.buf = none →
+      StepForeign c { c with pc := .got 0, chanExists := false }
+
+inductive ReachForeign (c0 : Cfg) : Cfg → Prop where
+  | refl : ReachForeign c0 c0
+  | step {c c'} : ReachForeign c0 c → StepForeign c c' → ReachForeign c0 c'
+
+/-- **With a foreign close an unapplied write is acknowledged**: `received_is_truthful` fails in the
+extended system (what seeded C11-F does when a replica is unloaded under a waiting writer). -/
+theorem foreign_close_acknowledges_an_unapplied_write :
+    ∃ c, ReachForeign (init 1) c ∧ c.pc = .got 0 ∧ c.applied = none := by
+  refine ⟨⟨1, false, none, .got 0, none, false, false⟩, ?_, rfl, rfl⟩
+  have s1 : Step (init 1) ⟨1, true, none, .created, none, false, false⟩ := Step.create _ rfl
+  have s2 : Step ⟨1, true, none, .created, none, false, false⟩ ⟨1, true, none, .proposed, none, false, false⟩ := Step.propose _ rfl
+  have s3 : Step ⟨1, true, none, .proposed, none, false, false⟩ ⟨1, true, none, .waiting, none, false, false⟩ := Step.startWait _ rfl
+  have s4 : StepForeign ⟨1, true, none, .waiting, none, false, false⟩ ⟨1, false, none, .got 0, none, false, false⟩ :=
+    StepForeign.foreignClose _ rfl rfl
+  exact .step (.step (.step (.step .refl (.base s1)) (.base s2)) (.base s3)) s4
+
 /-- non-vacuity: three workers, all delivered, then the channel is closed -/
 example : ∃ c, BatchFanIn.Reach 3 true c ∧ BatchFanIn.Collected 3 c ∧ c.closed = true := by
   refine ⟨⟨0, 3, 0, true⟩, ?_, rfl, rfl⟩
